@@ -209,9 +209,10 @@ def plusVal : Val → Val → Option Val
   | .i64 a, .i64 b => some (.i64 (a + b))
   | _, _ => none
 
-/-- `Ext::add`: `if self.is_null() { other } else { self + other }`; a panic is `.null` here and
-flagged by `sumPanics`. -/
-def addExt (s v : Val) : Val := if s.isNull then v else (plusVal s v).getD .null
+/-- `Ext::add`: NULL is the identity of the running aggregate
+(`if self.is_null() { other } else if other.is_null() { self } else { self + other }`); a panic of
+`+` (mixed types) is `.null` here. -/
+def addExt (s v : Val) : Val := if s.isNull then v else if v.isNull then s else (plusVal s v).getD .null
 
 /-- `Ext::or`. -/
 def orExt (s v : Val) : Val := if s.isNull then v else s
@@ -222,6 +223,9 @@ def initAgg : AggKind → AggState
   | _ => .value .null
 
 def setInsert (v : Val) (vs : List Val) : List Val := if vs.contains v then vs else vs ++ [v]
+
+/-- COUNT(DISTINCT) value set: NULL is not inserted. -/
+def setInsertNN (v : Val) (vs : List Val) : List Val := if v.isNull then vs else setInsert v vs
 
 /-- `Evaluator::agg_append` — the ROW path (hash_agg, sort_agg). -/
 def aggAppend (k : AggKind) (st : AggState) (v : Val) : AggState :=
@@ -235,17 +239,17 @@ def aggAppend (k : AggKind) (st : AggState) (v : Val) : AggState :=
     | .first => orExt s v
     | .last => v
     | .countDistinct => s)
-  | .distinct vs => .distinct (setInsert v vs)
+  | .distinct vs => .distinct (setInsertNN v vs)
 
 /-- array kernels used by the CHUNK path (`ArrayImpl::{sum,count,min_,max_,first,last}`).
-`sum` adds the RAW slots of the array (`raw_iter().sum()`), NULL slots included: `raws` is the
-raw content of every slot (a NULL slot of a stored column holds the default 0, a NULL slot of
-a computed column holds whatever the kernel computed from the operands' raw slots). -/
+`sum` adds the NON-NULL slots (`nonnull_iter().sum()`) and is NULL when there is none; the raw slots
+under NULLs (`raws`, still carried by `evalAgg` for the record) are no longer read. -/
 def zeroOf : Ty → Val
   | .i16 => .i16 0 | .i32 => .i32 0 | .i64 => .i64 0 | _ => .null
 
-def arrSum (ty : Ty) (raws : List Int) : Val := (zeroOf ty).withInt (sumInts raws)
 def arrCount (col : List Val) : Nat := (nonNull col).length
+def arrSum (ty : Ty) (col : List Val) : Val :=
+  if arrCount col == 0 then .null else (zeroOf ty).withInt (sumInts (intsOf col))
 def arrMin (col : List Val) : Val := (nonNull col).foldl minVal .null
 def arrMax (col : List Val) : Val := (nonNull col).foldl maxVal .null
 def arrFirst (col : List Val) : Val := col.head?.getD .null
@@ -253,18 +257,18 @@ def arrLast (col : List Val) : Val := col.getLast?.getD .null
 
 /-- `Evaluator::eval_agg` — the CHUNK path (simple_agg): `col` is the argument column of one
 chunk (values), `raws` its raw slots. -/
-def evalAgg (k : AggKind) (ty : Ty) (st : AggState) (col : List Val) (raws : List Int) : AggState :=
+def evalAgg (k : AggKind) (ty : Ty) (st : AggState) (col : List Val) (_raws : List Int) : AggState :=
   match st with
   | .value s => .value (match k with
     | .rowCount => addExt s (.i32 col.length)
     | .count => addExt s (.i32 (arrCount col))
-    | .sum => addExt s (arrSum ty raws)
+    | .sum => addExt s (arrSum ty col)
     | .min => minVal s (arrMin col)
     | .max => maxVal s (arrMax col)
     | .first => orExt s (arrFirst col)
     | .last => orExt (arrLast col) s
     | .countDistinct => s)
-  | .distinct vs => .distinct (col.foldl (fun acc v => setInsert v acc) vs)
+  | .distinct vs => .distinct (col.foldl (fun acc v => setInsertNN v acc) vs)
 
 def AggState.result : AggState → Val
   | .value v => v
